@@ -2385,6 +2385,8 @@ class Interp:
                 return SeqV(lambda t, _o=o, _lo=lo.t: _o.at(t + _lo), o.length - lo.t, '%s[lo:]' % o.name)
             raise Unsupported('slice of %s' % type(o).__name__)
         i = self.eval(sl, env)
+        if isinstance(o, StrV) and o.value is not None and isinstance(i, (BoolV, IntV)):
+            o = _chars(o)      # indexing a literal string ('01'[value]): its characters in order, as for iteration (A-SEQ for str)
         if isinstance(o, SeqV):
             if not isinstance(i, IntV):
                 raise Unsupported('non-int index')
